@@ -97,6 +97,8 @@ def run(ctx):
     siblings_agree(ctx, "T4-siblings-agree", M + "clear_later_rows_in_place", M + "clear_later_cols_in_place", "row step ~ column step", compare_fields=True)
     divisor_chain(ctx, g, ai)
     elimination_ranges(ctx, g)
+    elimination_algebra(ctx, g)
+    pivot_rules(ctx, g)
     last_pass_decides(ctx, g)
     ctx.clauses.append("gcdx is extended Euclid: r*A + s*B = +-gcd, t*A + u*B = 0, r*u - s*t = +-1 for every input (loop invariant decided on sampled states)")
     gx = ctx.body(M + "gcdx")
@@ -184,6 +186,10 @@ def elimination_ranges(ctx, g):
                 hi = strip(expand_single_defs(b, r[1], g))
                 want_rows = hi == rows_t
                 want_cols = is_call(hi, "::len") and contains(hi, lambda y: y == mat) and hi != rows_t and not contains(hi, lambda y: is_call(y, "Ord::min"))
+                # the number of columns is read off row 0, the only row a non-empty matrix is sure to have (a single relator gives a 1-row matrix)
+                ai_ = as_index(strip(hi[2][0])) if want_cols and hi[2] else None
+                if want_cols and not (ai_ and eval_int(ai_[1]) == 0):
+                    want_cols = False
                 ok = (want_rows if is_row_index else want_cols) and not r[2]
                 key = (fn, "rows" if is_row_index else "columns", show(hi, 1)[:40])
                 # where the loop starts, with the step index (second parameter) set to 5: the trailing block starts at 5; the rows / columns
@@ -210,6 +216,355 @@ def elimination_ranges(ctx, g):
                            key[1], show(hi, 1)[:50], "mat.len()" if is_row_index else "mat[0].len()"), b.span_of(bi))
     ctx.floor("row/column loops of the elimination routines", n, 8)
     ctx.floor("row/column loop starts of the elimination routines", n_lo[0], 8)
+
+
+def _gcdx_ref(a, b):
+    """reference extended Euclid (truncating division, as the contract rule proves of the crate's gcdx): (g, r, s, t, u) with r*a + s*b = g, t*a + u*b = 0"""
+    a0, a1, r0, r1, s0, s1 = a, b, 1, 0, 0, 1
+    while a1 != 0:
+        q = int(a0 / a1) if abs(a0) < 2 ** 50 else a0 // a1
+        a0, a1 = a1, a0 - q * a1
+        r0, r1 = r1, r0 - q * r1
+        s0, s1 = s1, s0 - q * s1
+    return (a0, r0, s0, r1, s1)
+
+
+class MatEval:
+    """evaluates origin terms over a concrete small integer matrix: mat[X][Y] lookups (Index / IndexMut forms), checked arithmetic, abs, and the
+    components of gcdx(E, F) (through the reference Euclid above; the crate's gcdx is tied to it by T7-euclid-contract)"""
+
+    def __init__(self, mat_term, mx, env):
+        self.mat, self.mx, self.env = mat_term, mx, env
+
+    def cell(self, t):
+        a = as_index(t)
+        if a:
+            inner = as_index(a[0])
+            if inner and strip(inner[0]) == self.mat:
+                r, c = self.ev(inner[1]), self.ev(a[1])
+                if r is None or c is None:
+                    return None
+                return (r, c)
+        if is_call(t, "IndexMut::index_mut") or is_call(t, "Index::index"):
+            inner = strip(t[2][0])
+            if (is_call(inner, "IndexMut::index_mut") or is_call(inner, "Index::index")) and strip(inner[2][0]) == self.mat:
+                r, c = self.ev(inner[2][1]), self.ev(t[2][1])
+                return None if r is None or c is None else (r, c)
+        return None
+
+    def ev(self, t):
+        t = strip(t)
+        if t in self.env:
+            return self.env[t]
+        if t[0] == "int":
+            return t[1]
+        c = self.cell(t)
+        if c is not None:
+            return self.mx.get(c)
+        if t[0] == "field" and t[1][0] == "binop" and str(t[2]) == "0":
+            return self.ev(("binop", t[1][1].replace("WithOverflow", ""), t[1][2], t[1][3]))
+        if t[0] == "field" and is_call(strip(t[1]), "invariants::gcdx") and str(t[2]).isdigit():
+            e, f = (self.ev(x) for x in strip(t[1])[2])
+            return None if e is None or f is None else _gcdx_ref(e, f)[int(t[2])]
+        if t[0] == "unop" and t[1] == "Neg":
+            v = self.ev(t[2])
+            return None if v is None else -v
+        if t[0] == "call" and t[1].endswith("::abs") and len(t[2]) == 1:
+            v = self.ev(t[2][0])
+            return None if v is None else abs(v)
+        if t[0] == "binop":
+            a, b = self.ev(t[2]), self.ev(t[3])
+            if a is None or b is None:
+                return None
+            op = t[1].replace("WithOverflow", "")
+            if op == "Add":
+                return a + b
+            if op == "Sub":
+                return a - b
+            if op == "Mul":
+                return a * b
+            if op == "Div":
+                return None if b == 0 else int(a / b)
+            if op == "Rem":
+                return None if b == 0 else a - b * int(a / b)
+            if op in ("Eq", "Ne", "Lt", "Le", "Gt", "Ge"):
+                return int({"Eq": a == b, "Ne": a != b, "Lt": a < b, "Le": a <= b, "Gt": a > b, "Ge": a >= b}[op])
+            if op == "BitAnd":
+                return a & b
+            if op == "BitOr":
+                return a | b
+        t2 = fold_std_ops(t)
+        if t2 != t:
+            return self.ev(t2)
+        return None
+
+    def atom(self, a):
+        if a[0] == "rel":
+            x, y = self.ev(a[2]), self.ev(a[3])
+            if x is None or y is None:
+                return None
+            return {"Eq": x == y, "Ne": x != y, "Lt": x < y, "Le": x <= y, "Gt": x > y, "Ge": x >= y}.get(a[1])
+        if a[0] == "bool":
+            v = self.ev(a[1])
+            return None if v is None else (bool(v) == a[2])
+        return None
+
+
+def elimination_algebra(ctx, g):
+    """the row / column steps of the Smith elimination, decided by EVALUATING their store expressions on small integer matrices (nothing is run):
+    whichever branch the guards select for a pivot e = mat[i][i] and an entry f below / right of it, the two lines involved are replaced by an
+    integer combination with determinant +-1 (read off two unit probe columns), the entry f becomes 0, and a third column follows the same
+    combination.  Hence each step preserves the lattice and clears one entry - independent of how the combination is written"""
+    import random
+    ctx.clauses.append("elimination steps: for every sampled (pivot, entry) the selected branch applies a unimodular integer combination of the two lines that clears the entry (T7, store expressions evaluated)")
+    for fn, rows in (("clear_later_rows_in_place", True), ("clear_later_cols_in_place", False)):
+        b = ctx.body(M + fn)
+        ctx.scan([b])
+        mat, i_ = ("param", 1, b.debug.get(1, "")), ("param", 2, b.debug.get(2, ""))
+        stores = []
+        for bi, si, s in b.assigns():
+            if [e["k"] for e in s["place"]["p"]] == ["deref"]:
+                tgt = strip(norm(b.local_origin(s["place"]["l"]), g))
+                stores.append((bi, tgt, strip(norm(b.rv_origin(s["rv"]), g))))
+        # path conditions (both outcomes of every test on the way, so `else if` branches carry the negation of the first test)
+        stores = [(bi, tgt, val, [[atom_norm(a, g) for a in ats if not is_ovf_atom(a) and a[0] in ("rel", "bool")] for tg_, ats in paths_to(b, 0, {bi}, g=g, limit=400)]) for bi, tgt, val in stores]
+        # the loop variables: outer = the line being cleared (row resp. column), inner = the position along the lines
+        iters = {}
+        for bi, tgt, val, fa in stores:
+            for y in subterms(tgt):
+                if isinstance(y, tuple) and y and y[0] == "field" and y[2] == "0" and strip(y[1])[0] == "variant" and is_call(strip(strip(y[1])[1]), "Iterator::next"):
+                    r = loop_range_of_payload(b, y, g)
+                    if r is not None:
+                        iters[y] = r
+        bad = None
+        outer = [y for y, r in iters.items() if unov_deep(strip(expand_single_defs(b, r[0], g))) == ("binop", "Add", i_, ("int", 1))]
+        inner = [y for y in iters if y not in outer]
+        if len(outer) != 1 or not inner or not stores:
+            bad = "the step is not a loop over the lines after i with inner loops along the lines"
+        n = 0
+        rnd = random.Random(17)
+        I, L = 1, 3          # pivot index and the line being cleared
+        for _ in range(0 if bad else 60):
+            e, f = rnd.choice([(4, 6), (6, 4), (3, 7), (5, 0), (2, 8), (-4, 6), (4, -6), (0, 5), (7, 7), (1, 9), (-3, -9), (6, 9)])
+            mx = {(r, c): rnd.randint(-5, 5) for r in range(6) for c in range(6)}
+            P1, P2, P3 = 2, 4, 5   # probe positions along the lines (beyond the pivot)
+            if rows:
+                mx[(I, I)], mx[(L, I)] = e, f
+                mx[(I, P1)], mx[(L, P1)] = 1, 0
+                mx[(I, P2)], mx[(L, P2)] = 0, 1
+                cell = lambda line, pos: (line, pos)
+            else:
+                mx[(I, I)], mx[(I, L)] = e, f
+                mx[(P1, I)], mx[(P1, L)] = 1, 0
+                mx[(P2, I)], mx[(P2, L)] = 0, 1
+                cell = lambda line, pos: (pos, line)
+            new = dict(mx)
+            applied = 0
+            for pos in (I, P1, P2, P3):
+                for bi, tgt, val, fa in stores:
+                    env = {i_: I, outer[0]: L}
+                    for y in inner:
+                        env[y] = pos
+                    ev = MatEval(mat, mx, env)
+                    taken = False
+                    for path in fa:
+                        ok_path = True
+                        for a in path:              # in program order: a later test is only evaluated if the earlier ones held
+                            c = ev.atom(a)
+                            if c is None:
+                                bad = bad or "a branch condition of the step cannot be evaluated: %s" % show_atom(a)[:60]
+                                ok_path = False
+                                break
+                            if not c:
+                                ok_path = False
+                                break
+                        taken = taken or ok_path
+                    if not taken:
+                        continue
+                    where = ev.cell(tgt)
+                    v = ev.ev(val)
+                    if where is None or v is None:
+                        bad = bad or "a store of the step cannot be evaluated: %s" % show(val, 1)[:60]
+                        continue
+                    new[where] = v
+                    applied += 1
+            if bad:
+                break
+            n += 1
+            u = ((new[cell(I, P1)], new[cell(I, P2)]), (new[cell(L, P1)], new[cell(L, P2)]))
+            det = u[0][0] * u[1][1] - u[0][1] * u[1][0]
+            what = "pivot %d, entry %d" % (e, f)
+            if f == 0:
+                if new != mx:
+                    bad = "with %s (nothing to clear) the matrix is changed" % what
+            elif new[cell(L, I)] != 0:
+                bad = "with %s the entry is not cleared: it becomes %d" % (what, new[cell(L, I)])
+            elif abs(det) != 1:
+                bad = "with %s the two lines are combined with determinant %d (not +-1): the lattice changes" % (what, det)
+            else:
+                for pos in (I, P3):
+                    vi, vl = mx[cell(I, pos)], mx[cell(L, pos)]
+                    if new[cell(I, pos)] != u[0][0] * vi + u[0][1] * vl or new[cell(L, pos)] != u[1][0] * vi + u[1][1] * vl:
+                        bad = "with %s position %d of the two lines does not follow the same integer combination as the probe positions" % (what, pos)
+            if bad:
+                break
+        ctx.ob("T7-elimination-algebra", b.name, "unimodular, clears the entry", "ok" if not bad and n else "violation",
+               "on %d sampled matrices the selected branch is a determinant +-1 combination of the two lines that clears the entry" % n if not bad and n else (bad or "nothing evaluated"))
+
+
+def pivot_rules(ctx, g):
+    """pivot search and pivot move.  find_pivot: scanning mat[r][c], the running answer (row, col, min) is replaced by (r, c, |mat[r][c]|) exactly for
+    a non-zero entry smaller than the minimum so far (guard evaluated on value pairs; ties are free), starting from min = isize::MAX, and (row, col)
+    is returned in this order.  move_pivot_in_place(mat, target, (row, col)): rows `row` and `target` are exchanged entry by entry whenever they
+    differ, then columns `col` and `target`.  diagonalize_in_place hands the pair of find_pivot on unchanged and tests mat[row][col] != 0"""
+    ctx.clauses.append("find_pivot keeps (r, c, |entry|) exactly for smaller non-zero entries and returns (row, col); move_pivot swaps row<->target then col<->target whenever they differ; diagonalize passes the pair on in order (T9, guards evaluated)")
+    fp = ctx.body(M + "find_pivot")
+    ctx.scan([fp])
+    mat = ("param", 1, fp.debug.get(1, ""))
+    ret = strip(norm(fp.local_origin(0), g))
+    bad = None
+    if not (ret[0] == "agg" and len(ret[2]) == 2 and all(strip(x)[0] == "local" for x in ret[2])):
+        bad = "the result is not a pair of the running answer"
+    else:
+        rowl, coll = strip(ret[2][0]), strip(ret[2][1])
+        loops = natural_loops(fp)
+        lb = set()
+        for h_, bl_ in loops:
+            lb |= set(bl_)
+        ind = lambda l: [(dbb, strip(norm(d, g))) for dbb, d in fp.all_defs_origins(l[1]) if dbb in lb]
+        rd, cd = ind(rowl), ind(coll)
+        if len(rd) != 1 or len(cd) != 1 or rd[0][0] != cd[0][0]:
+            bad = "row and col are not replaced together"
+        else:
+            ub = rd[0][0]
+            R, C = rd[0][1], cd[0][1]
+            ent = ("call", "core::num::<impl isize>::abs", (("call", "std::ops::Index::index", (("call", "std::ops::Index::index", (mat, R)), C)),))
+            mins = [l for l, nm in fp.debug.items() if fp.local_ty(l) == "isize" and len(fp.all_defs_origins(l)) == 2 and any(dbb == ub for dbb, _ in fp.all_defs_origins(l))]
+            okmin = False
+            minl = None
+            for l in mins:
+                ds = [(dbb, strip(norm(d, g))) for dbb, d in fp.all_defs_origins(l)]
+                upd = [d for dbb, d in ds if dbb == ub]
+                ini = [d for dbb, d in ds if dbb != ub]
+                if upd and (upd[0] == ent or (is_call(upd[0], "::abs") and as_index(strip(upd[0][2][0])) and strip(as_index(strip(upd[0][2][0]))[1]) == C)):
+                    okmin = bool(ini) and (is_call(ini[0], "max_value") or ini[0][0] in ("constdef", "int") and (eval_int(ini[0]) or 0) >= 2 ** 62 or contains(ini[0], lambda y: isinstance(y, tuple) and "MAX" in str(y)))
+                    minl = ("local", l, fp.debug.get(l, ""))
+            rR, rC = loop_range_of_payload(fp, R, g), loop_range_of_payload(fp, C, g)
+            if minl is None or not okmin:
+                bad = "the minimum so far is not |mat[r][c]| of the entry taken, starting from isize::MAX"
+            elif not (rR and rC and is_call(strip(expand_single_defs(fp, rR[1], g)), "::len") and strip(expand_single_defs(fp, rR[1], g))[2][0] == mat):
+                bad = "the row of the answer is not the loop variable that runs over the rows of mat"
+            else:
+                # the guard of the update, on (entry, minimum so far)
+                v_t = None
+                paths = [[atom_norm(a, g) for a in ats if not is_ovf_atom(a) and a[0] in ("rel", "bool")] for tg_, ats in paths_to(fp, 0, {ub}, g=g, limit=200)]
+                table = {}
+                for v, mn in ((0, 5), (3, 5), (7, 5), (5, 5), (1, 2 ** 63 - 1)):
+                    taken = False
+                    for path in paths:
+                        okp = True
+                        for a in path:
+                            env = {minl: mn}
+                            for y in subterms(("agg", "x", tuple(x for x in a[1:] if isinstance(x, tuple)))):
+                                if isinstance(y, tuple) and y and y[0] == "call" and y[1].endswith("::abs"):
+                                    env[y] = v
+                                elif isinstance(y, tuple) and y and y[0] == "local" and y != minl and fp.local_ty(y[1]) == "isize":
+                                    env[y] = v
+                            c = eval_atom_env(a, env)
+                            if c is None:
+                                continue          # loop conditions (ranges) are not functions of the entry
+                            if not c:
+                                okp = False
+                                break
+                        taken = taken or okp
+                    table[(v, mn)] = taken
+                want = {(0, 5): False, (3, 5): True, (7, 5): False, (1, 2 ** 63 - 1): True}
+                wrong = [k for k, w in want.items() if table.get(k) != w]
+                if wrong:
+                    bad = "the answer is replaced for (entry, minimum so far) = %s and kept for %s; it must be replaced exactly for non-zero entries below the minimum" % (
+                        [k for k, t_ in table.items() if t_], [k for k, t_ in table.items() if not t_])
+    ctx.ob("T9-pivot", fp.name, "(row, col, min) <- (r, c, |mat[r][c]|) iff 0 < |entry| < min", "ok" if not bad else "violation",
+           "smallest non-zero entry of the trailing block (guard evaluated on 5 value pairs), returned as (row, col)" if not bad else bad)
+    mp = ctx.body(M + "move_pivot_in_place")
+    ctx.scan([mp])
+    mat, tg = ("param", 1, mp.debug.get(1, "")), ("param", 2, mp.debug.get(2, ""))
+    p0, p1 = ("field", ("param", 3, mp.debug.get(3, "")), "0"), ("field", ("param", 3, mp.debug.get(3, "")), "1")
+    stores = []
+    for bi, si, s in mp.assigns():
+        if [e["k"] for e in s["place"]["p"]] == ["deref"]:
+            tgt = strip(norm(mp.local_origin(s["place"]["l"]), g))
+            stores.append((bi, tgt, strip(norm(mp.rv_origin(s["rv"]), g))))
+
+    def cell(t):
+        for nm in ("IndexMut::index_mut", "Index::index"):
+            if is_call(t, nm):
+                inner = strip(t[2][0])
+                if (is_call(inner, "IndexMut::index_mut") or is_call(inner, "Index::index")) and strip(inner[2][0]) == mat:
+                    return strip(inner[2][1]), strip(t[2][1])
+        return None
+    bad = None
+    sw = [(bi, cell(t_), cell(v_)) for bi, t_, v_ in stores]
+    if len(sw) != 4 or any(x[1] is None or x[2] is None for x in sw):
+        bad = "not four entry stores of the form mat[..][..] = mat[..][..]"
+    else:
+        pairs = {(x[1], x[2]) for x in sw}
+        rows = [x for x in sw if x[1][0] in (p0, tg) and x[2][0] in (p0, tg) and x[1][1] == x[2][1]]
+        cols = [x for x in sw if x[1][1] in (p1, tg) and x[2][1] in (p1, tg) and x[1][0] == x[2][0]]
+        okr = len(rows) == 2 and {(x[1][0], x[2][0]) for x in rows} == {(p0, tg), (tg, p0)}
+        okc = len(cols) == 2 and {(x[1][1], x[2][1]) for x in cols} == {(p1, tg), (tg, p1)}
+        if not okr:
+            bad = "rows `row` (first component of the pair) and `target` are not exchanged entry by entry"
+        elif not okc:
+            bad = "columns `col` (second component of the pair) and `target` are not exchanged entry by entry"
+        else:
+            for grp, comp, what in ((rows, p0, "row"), (cols, p1, "col")):
+                for bi, _, _ in grp:
+                    ok_reach = False
+                    for tg_, ats in paths_to(mp, 0, {bi}, g=g, limit=100):
+                        vals = [eval_atom_env(atom_norm(a, g), {comp: 2, tg: 5}) for a in ats if not is_ovf_atom(a) and a[0] in ("rel", "bool")]
+                        if all(v is None or v for v in vals):
+                            ok_reach = True
+                    if not ok_reach:
+                        bad = bad or "the %s exchange is not reached when %s = 2 differs from target = 5" % (what, what)
+            if not bad and not all(rb in mp.bwd(cb) or mp.dominates(rb, cb) for rb, _, _ in rows for cb, _, _ in cols):
+                pass
+    ctx.ob("T9-pivot", mp.name, "swap rows, swap columns", "ok" if not bad else "violation", "mat[row][c] <-> mat[target][c] for the rows, mat[r][col] <-> mat[r][target] for the columns, whenever they differ" if not bad else bad)
+    db = ctx.body(M + "diagonalize_in_place")
+    ctx.scan([db])
+    mat = ("param", 1, db.debug.get(1, ""))
+    bad = None
+    fpc = [(bi, [strip(norm(db.origin(x), g)) for x in t["args"]]) for bi, t in db.calls(exact=M + "find_pivot")]
+    mvc = [(bi, [strip(norm(db.origin(x), g)) for x in t["args"]]) for bi, t in db.calls(exact=M + "move_pivot_in_place")]
+    if len(fpc) != 1 or len(mvc) != 1:
+        bad = "not one find_pivot and one move_pivot_in_place per step"
+    else:
+        step = fpc[0][1][1]
+        res = ("call", M + "find_pivot", (mat, step))
+        r0, r1 = ("field", res, "0"), ("field", res, "1")
+        pr = mvc[0][1][2]
+        okp = pr == res or (pr[0] == "agg" and [strip(x) for x in pr[2]] == [r0, r1])
+        fa = [atom_norm(a, g) for a in db.facts_at(mvc[0][0])]
+        okg = any(a[0] == "rel" and a[1] == "Ne" and eval_int(a[3]) == 0 and cell_of(a[2], mat) == (r0, r1) for a in fa)
+        if mvc[0][1][1] != step:
+            bad = "the pivot is not moved to the position of the current step"
+        elif not okp:
+            bad = "move_pivot_in_place does not get the (row, col) pair of find_pivot in its order: %s" % show(pr, 1)[:60]
+        elif not okg:
+            bad = "the step is not guarded by mat[row][col] != 0 for the (row, col) of find_pivot"
+    ctx.ob("T9-pivot", db.name, "find -> test -> move", "ok" if not bad else "violation", "(row, col) = find_pivot(mat, i); if mat[row][col] != 0 move_pivot_in_place(mat, i, (row, col))" if not bad else bad)
+
+
+def cell_of(t, mat):
+    t = strip(t)
+    for nm in ("IndexMut::index_mut", "Index::index"):
+        if is_call(t, nm):
+            inner = strip(t[2][0])
+            if (is_call(inner, "IndexMut::index_mut") or is_call(inner, "Index::index")) and strip(inner[2][0]) == mat:
+                return strip(inner[2][1]), strip(t[2][1])
+    a = as_index(t)
+    if a and as_index(a[0]) and strip(as_index(a[0])[0]) == mat:
+        return strip(as_index(a[0])[1]), strip(a[1])
+    return None
 
 
 def last_pass_decides(ctx, g):
